@@ -133,6 +133,12 @@ theorem wt_noDead (vtys : List CSem.Ty) (ret : CSem.Ty) (st : Stmt) : ∀ (lb lc
     · cases h
   | case_ u => intro lb lc nd nd' h; simp only [Stmt.wt, Option.some.injEq] at h; simp [noDead, declTys, h]
   | default_ => intro lb lc nd nd' h; simp only [Stmt.wt, Option.some.injEq] at h; simp [noDead, declTys, h]
+  | call dst rt fn args =>
+    intro lb lc nd nd' h
+    simp only [Stmt.wt] at h
+    split at h
+    · cases h; simp [noDead, declTys]
+    · cases h
 
 /-! ## The simulation statement -/
 
@@ -145,7 +151,7 @@ def frag : Stmt → Bool
   | .while_ _ b => frag b
   | .dowhile b _ => frag b
   | .for_ _ st b => frag st && frag b
-  | .case_ _ | .default_ => true
+  | .case_ _ | .default_ | .call .. => true
   | .switch_ _ b => frag b
 
 /-- Executions of at most `fuel` are simulated (see `Post`). -/
